@@ -268,10 +268,12 @@ impl EventGen for SvgElement {
 //@ strlit "loop" "config" "reuse" "specs" "var" "if" "defaults" "for" "g" "symbol" "clip-path" "svg" "xmlns"
 //@ replace[R-into] <<<Ok((self.all_events(context).into(), None))>>> => <<<Ok((self.all_events_verbatim(context), None))>>>
 //@ replace-re[R-andthen] <<<self\.get_attr\("clip-path"\)\s*\.and_then\(\|url\| extract_urlref\(&url\)\)>>> => <<<clip_ref(self)>>>
+//@ before <<<bbox = el_bbox.intersect(&clip_bbox);>>>
+//@ | assert(!(self.name@ == "reuse"@)); // the box of a <reuse> is the box of what it emitted: the instance elements carry (and are clipped by) their own clip-path, a clip-path on the <reuse> itself is not copied to them @C08.clip.reuse_box_is_its_instances
 //@ ensures
 //@ - old(context).current_depth + 1 > old(context).config.depth_limit ==> r is Err    @@C17.depth.guard @@C01.depth.guard
 //@ - final(context).gen_depths@.len() > old(context).gen_depths@.len() ==> final(context).gen_depths@[old(context).gen_depths@.len() as int] == old(context).current_depth + 1    @@C01.depth.counted_while_nested @@C17.depth.counted_while_nested
-//@ - r is Ok && clip_of(*self) is Some && !known(*final(context), clip_of(*self)->Some_0) && !plain_container(*self) ==> r->Ok_0.1 is None     @@C08.clip.unknown_target_gives_no_box @@C10.clip.unknown_target_gives_no_box
+//@ - r is Ok && clip_of(*self) is Some && !known(*final(context), clip_of(*self)->Some_0) && !plain_container(*self) && !(self.name@ == "reuse"@) ==> r->Ok_0.1 is None     @@C08.clip.unknown_target_gives_no_box @@C10.clip.unknown_target_gives_no_box
 //@ - self.name@ == "svg"@ && attr_spec(*self, "xmlns"@) is Some && !plain_container(*self) && clip_of(*self) is None && old(context).current_depth + 1 <= old(context).config.depth_limit ==>
 //@       r is Ok && r->Ok_0.0 == verbatim_events(*self, old(context).events@) && r->Ok_0.1 is None     @@C03.nested.empty_element_verbatim
 //@end
